@@ -229,15 +229,20 @@ def delivered : List Ev → List Nat
 
 def removeAll (xs drop : List Nat) : List Nat := xs.filter (fun x => !drop.contains x)
 
-def holds (start : Nat) (specs : List Spec) (evs : List Ev) (o : Obs) : Bool :=
-  -- every block counter call is the nominal one, in order
-  isPrefix o.calls (.wait start :: sched start specs)
-  -- a normal end is the last state, at exactly start + total, after all calls
-  && (match o.res with
+/-- the block-window part of the monitor: every block counter call is the nominal one, in
+    order; a normal end is the last state, at exactly `start + total`, after all calls. -/
+def holdsSched (start : Nat) (specs : List Spec) (calls : List Call) (res : Res) : Bool :=
+  isPrefix calls (.wait start :: sched start specs)
+  && (match res with
       | .final k e => decide (k + 1 = specs.length) && decide (e = start + total specs)
-                      && decide (o.endBlock = e) && decide (o.calls.length = 1 + 2 * specs.length)
-                      && decide (o.recs.length = specs.length)
+                      && decide (calls.length = 1 + 2 * specs.length)
       | .running => false
+      | _ => true)
+
+def holds (start : Nat) (specs : List Spec) (evs : List Ev) (o : Obs) : Bool :=
+  holdsSched start specs o.calls o.res
+  && (match o.res with
+      | .final _ e => decide (o.endBlock = e) && decide (o.recs.length = specs.length)
       | _ => true)
   -- a state is entered not before the previous one ended (state 0 registers its handler before
   -- the start block) and initiated not before its delay,
